@@ -16,19 +16,22 @@ use crate::props::{c04, c06, c07, c10, c11, c13, c14, c15, c16, c18};
 use crate::{Fail, Probe};
 
 /// The sub-checks that can be driven this way: (key, property, sub-check name used for replay files).
-pub const SUBS: &[(&str, &str, &str)] = &[
-    ("c04z", "C04", "hist_zero_sized"),
-    ("c06", "C06", "selections"),
-    ("c07", "C07", "invariants"),
-    ("c10", "C10", "generated_cases"),
-    ("c11", "C11", "mutations"),
-    ("c13", "C13", "invariants"),
-    ("c14c", "C14", "compositions"),
-    ("c14w", "C14", "wrappers"),
-    ("c15", "C15", "generated"),
-    ("c16", "C16", "operator_histories"),
-    ("c16p", "C16", "push_evaluation"),
-    ("c18", "C18", "generated"),
+pub const SUBS: &[(&str, &str, &str, usize)] = &[
+    ("c04z", "C04", "hist_zero_sized", 1024),
+    ("c06", "C06", "selections", 4096),
+    ("c06L", "C06", "selections_larger_populations", 16384),
+    ("c07", "C07", "invariants", 4096),
+    ("c10", "C10", "generated_cases", 4096),
+    ("c10L", "C10", "generated_cases_long", 16384),
+    ("c11", "C11", "mutations", 4096),
+    ("c11L", "C11", "mutations_long_genomes", 16384),
+    ("c13", "C13", "invariants", 4096),
+    ("c14c", "C14", "compositions", 4096),
+    ("c14w", "C14", "wrappers", 2048),
+    ("c15", "C15", "generated", 8192),
+    ("c16", "C16", "operator_histories", 8192),
+    ("c16p", "C16", "push_evaluation", 4096),
+    ("c18", "C18", "generated", 4096),
 ];
 
 /// One value of the strategy with the bytes as its random stream (zeros once they are used up).
@@ -59,9 +62,12 @@ pub fn judge(key: &str, bytes: &[u8]) -> Option<(Fail, Value)> {
     match key {
         "c04z" => cached!(c04::ZHist, c04::zst_strategy().boxed(), c04::zst_oracle),
         "c06" => cached!(c06::Case, c06::strategy(12), c06::oracle),
+        "c06L" => cached!(c06::Case, c06::strategy(90), c06::oracle),
         "c07" => cached!(c07::Case, c07::strategy(40), c07::oracle),
         "c10" => cached!(c10::Case, c10::strategy(40), c10::oracle),
+        "c10L" => cached!(c10::Case, c10::strategy(300), c10::oracle),
         "c11" => cached!(c11::Case, c11::strategy(40), c11::oracle),
+        "c11L" => cached!(c11::Case, c11::strategy(300), c11::oracle),
         "c13" => cached!(c13::Case, c13::strategy(), c13::oracle),
         "c14c" => cached!(c14::Case, c14::strategy(), c14::oracle),
         "c14w" => cached!(c14::WrapCase, c14::wrap_strategy(), c14::wrapper_oracle),
@@ -71,25 +77,35 @@ pub fn judge(key: &str, bytes: &[u8]) -> Option<(Fail, Value)> {
             thread_local! { static T: Tables = Tables::build(); }
             T.with(|t| c16::push_oracle(t, c, p))
         }),
-        "c18" => cached!(c18::Case, c18::strategy(60), c18::oracle),
+        "c18" => cached!(c18::Case, c18::strategy(300), c18::oracle),
         _ => None,
     }
 }
 
 #[must_use]
-pub fn sub_of(key: &str) -> Option<(&'static str, &'static str)> {
-    SUBS.iter().find(|(k, _, _)| *k == key).map(|(_, p, s)| (*p, *s))
+pub fn sub_of(key: &str) -> Option<(&'static str, &'static str, usize)> {
+    SUBS.iter().find(|(k, _, _, _)| *k == key).map(|(_, p, s, l)| (*p, *s, *l))
 }
 
 /// Thorough-tier campaign of sub-check `key`; crashing inputs are decoded and judged here again.
 pub fn campaign(ctx: &mut crate::Ctx, key: &str, jobs: usize, runs_per_job: u64) {
-    let Some((_, sub)) = sub_of(key) else { return };
+    let Some((_, sub, max_len)) = sub_of(key) else { return };
     if !ctx.violations().is_empty() {
         return;
     }
-    for bytes in crate::fuzzrun::campaign_sub(ctx, "pt_cases", Some(key), jobs, runs_per_job, 4096) {
+    for bytes in crate::fuzzrun::campaign_sub(ctx, "pt_cases", Some(key), jobs, runs_per_job, max_len) {
         if let Some((f, case)) = judge(key, &bytes) {
             ctx.violation(sub, &f, case);
         }
+    }
+}
+
+/// The campaigns of one property: thorough tier only, skipped once a violation is known.
+pub fn thorough(ctx: &mut crate::Ctx, plan: &[(&str, usize, u64)]) {
+    if ctx.tier != crate::Tier::Thorough {
+        return;
+    }
+    for (key, jobs, runs) in plan {
+        campaign(ctx, key, *jobs, *runs);
     }
 }
